@@ -122,4 +122,99 @@ Proof.
   rewrite (gather_correct_valid HS _ (HsetX_valid q r' Hq Hr') _ Hj2), (gather_correct_valid HS _ Hq _ Hj'). f_equal.
   unfold GatherStep.globD. apply mk_ext. intros e He. rewrite HcoD by assumption. reflexivity.
 Qed.
+(** ** memory level: the gather as operations on whole arrays, and its frame (layout.py:1341-1391, 1447-1494).
+    Allgather(source[:B], X[:p*B]) overwrites exactly the first p*B cells of X (X = dest without a spare
+    buffer, buf with one); the unpack writes exactly the first size' cells of its target (source without a
+    spare buffer - followed by dest[:] = source[:], a copy of the whole array - dest with one). *)
+Definition gunpack_addr (q : rank) (A' : nat) : nat :=
+  let j' := unravel (mk d (shD q)) A' in
+  let g := rd j' id_ in
+  let r := owner n0 p g in
+  let t := g - bstart n0 p r in
+  r * B q + ravel (mk d (shS (setX q r))) (mk d (fun a => if a =? is_ then t else rd j' (ipi' (pi a)))).
+
+Definition gmem := rank -> nat -> V.
+Definition mallgather (sbuf old : gmem) : gmem :=
+  fun q A => if A <? p * B q then sbuf (setX q (A / B q)) (A mod B q) else old q A.
+Definition mgunpack (rbuf data : gmem) : gmem :=
+  fun q A' => if A' <? size (mk d (shD q)) then rbuf q (gunpack_addr q A') else data q A'.
+
+(** _transpose, gather branch: returns (source', dest') *)
+Definition mgather_plain (msrc mdst : gmem) : gmem * gmem :=
+  let d1 := mallgather msrc mdst in
+  let s1 := mgunpack d1 msrc in
+  (s1, s1).
+(** _transpose_source_intact, gather branch: returns (dest', buf'); source is not written *)
+Definition mgather_intact (msrc mdst mbuf : gmem) : gmem * gmem :=
+  let b1 := mallgather msrc mbuf in
+  (mgunpack b1 mdst, b1).
+
+Lemma gv_addr_lt q j' : valid q -> inb (mk d (shD q)) j' -> gunpack_addr q (ravel (mk d (shD q)) j') < p * B q.
+Proof.
+  intros Hq Hj'. unfold gunpack_addr. rewrite (unravel_ravel _ _ Hj').
+  pose proof (inb_mk_inv _ _ _ Hj') as Hjlt.
+  pose proof gv_id_lt as Hid. destruct Hfull as [HPid Hcid].
+  set (g := rd j' id_). set (r := owner n0 p g). set (t := g - bstart n0 p r).
+  assert (Hg : g < n0).
+  { pose proof (Hjlt id_ Hid) as H. unfold GatherStep.shD in H. rewrite gv_pi'_id, HPid, (Hcid q Hq) in H.
+    rewrite blen_one in H by reflexivity. exact H. }
+  destruct (owner_spec n0 p g Hp Hg) as [Hr [Hlo Hhi]]. fold r in Hr, Hlo, Hhi.
+  assert (Ht : t < blen n0 p r) by (unfold t, blen; lia).
+  set (I := fun a => if a =? is_ then t else rd j' (ipi' (pi a))).
+  assert (Hinb : inb (mk d (shS (setX q r))) (mk d I)).
+  { apply inb_mk. intros a Ha. unfold I.
+    destruct (Nat.eqb_spec a is_) as [->|Hne].
+    - unfold GatherStep.shS. rewrite HsetX_is by assumption. fold n0 p. exact Ht.
+    - rewrite gv_shS_setX_other by assumption.
+      destruct (Hsame q a Hq Ha Hne) as [E1 E2].
+      destruct (Hpi a Ha) as [Hpa _]. destruct (Hipi' _ Hpa) as [Hx Hy].
+      pose proof (Hjlt _ Hx) as H. unfold GatherStep.shD in H. rewrite Hy, E1, E2 in H. exact H. }
+  assert (HR : ravel (mk d (shS (setX q r))) (mk d I) < B q).
+  { eapply Nat.lt_le_trans; [apply ravel_lt, Hinb|]. unfold GatherStep.B, mk. apply gv_size_map_le.
+    intros a Ha. apply in_seq in Ha.
+    destruct (Nat.eqb_spec a is_) as [->|Hne].
+    - unfold GatherStep.shS. rewrite HsetX_is by assumption. fold n0 p. apply blen_le_bmax; assumption.
+    - rewrite gv_shS_setX_other by assumption. lia. }
+  nia.
+Qed.
+
+(** the unpack reads gathered cells only: the block prefix is the value GatherStep.dst describes *)
+Lemma mgunpack_reads (msrc old data : gmem) q j' : valid q -> inb (mk d (shD q)) j' ->
+  mgunpack (mallgather msrc old) data q (ravel (mk d (shD q)) j')
+  = GatherStep.dst V d N pi pi' ipi' is_ rank setX PSa PDa coS coD msrc q (ravel (mk d (shD q)) j').
+Proof.
+  intros Hq Hj'. pose proof (gv_addr_lt q j' Hq Hj') as Hlt.
+  unfold mgunpack. destruct (Nat.ltb_spec (ravel (mk d (shD q)) j') (size (mk d (shD q)))) as [_|H];
+    [|pose proof (ravel_lt _ _ Hj'); lia].
+  unfold mallgather. destruct (Nat.ltb_spec (gunpack_addr q (ravel (mk d (shD q)) j')) (p * B q)) as [_|H]; [|lia].
+  reflexivity.
+Qed.
+
+Theorem mgather_plain_prefix msrc mdst q j' : valid q -> inb (mk d (shD q)) j' ->
+  snd (mgather_plain msrc mdst) q (ravel (mk d (shD q)) j')
+  = GatherStep.dst V d N pi pi' ipi' is_ rank setX PSa PDa coS coD msrc q (ravel (mk d (shD q)) j').
+Proof. intros. unfold mgather_plain. cbn [snd]. apply mgunpack_reads; assumption. Qed.
+Theorem mgather_intact_prefix msrc mdst mbuf q j' : valid q -> inb (mk d (shD q)) j' ->
+  fst (mgather_intact msrc mdst mbuf) q (ravel (mk d (shD q)) j')
+  = GatherStep.dst V d N pi pi' ipi' is_ rank setX PSa PDa coS coD msrc q (ravel (mk d (shD q)) j').
+Proof. intros. unfold mgather_intact. cbn [fst]. apply mgunpack_reads; assumption. Qed.
+
+(** frames.  Without a spare buffer the source array keeps everything beyond the destination block, and dest
+    becomes a copy of the whole source array (so beyond the block it holds the old *source* cells); with a
+    spare buffer the source is not written, dest keeps everything beyond the block, buf everything beyond p*B *)
+Theorem mgather_plain_src_frame msrc mdst q A : size (mk d (shD q)) <= A -> fst (mgather_plain msrc mdst) q A = msrc q A.
+Proof. intros H. clear - H. unfold mgather_plain, mgunpack. cbn [fst].
+  destruct (Nat.ltb_spec A (size (mk d (shD q)))); [lia|reflexivity]. Qed.
+Theorem mgather_plain_dst_is_src msrc mdst : snd (mgather_plain msrc mdst) = fst (mgather_plain msrc mdst).
+Proof. reflexivity. Qed.
+Theorem mgather_intact_dst_frame msrc mdst mbuf q A : size (mk d (shD q)) <= A -> fst (mgather_intact msrc mdst mbuf) q A = mdst q A.
+Proof. intros H. clear - H. unfold mgather_intact, mgunpack. cbn [fst].
+  destruct (Nat.ltb_spec A (size (mk d (shD q)))); [lia|reflexivity]. Qed.
+Theorem mgather_intact_buf_frame msrc mdst mbuf q A : p * B q <= A -> snd (mgather_intact msrc mdst mbuf) q A = mbuf q A.
+Proof. intros H. clear - H. unfold mgather_intact, mallgather. cbn [snd].
+  destruct (Nat.ltb_spec A (p * B q)); [lia|reflexivity]. Qed.
+Theorem mgather_intact_buf_scratch msrc mdst mbuf q A : A < p * B q ->
+  snd (mgather_intact msrc mdst mbuf) q A = msrc (setX q (A / B q)) (A mod B q).
+Proof. intros H. clear - H. unfold mgather_intact, mallgather. cbn [snd].
+  destruct (Nat.ltb_spec A (p * B q)); [reflexivity|lia]. Qed.
 End GatherV.
